@@ -95,3 +95,23 @@ Theorem C16_order_independent_point :
   exists x' y', intersection (fpt b1x b1y) (fpt b2x b2y) (fpt a1x a1y) (fpt a2x a2y) = LPoint (fpt x' y')
                 /\ x' == x /\ y' == y.
 Proof. exact intersection_point_sym. Qed.
+
+(** all arms of the step, exact instance: every event that [possible_intersection] creates (on
+    two left events of a store satisfying the on-edge invariant [einv2], which every store of
+    the sweep does: C13) lies at a point that is on BOTH segments — the exact common point in
+    the crossing case; in the overlap case an end point of one segment lying inside the other,
+    i.e. an end of the common part.  (The typing of the coincident pieces is checked
+    exhaustively on the lattice, not proved.) *)
+From GB Require Import Event Divide LinkProofs OnEdge OnEdgeFull OverlapArm.
+Theorem C16_new_events_lie_on_both_segments :
+  forall (edges : list edge) (cfg : Outcome.config) (s s' : sq NQ) (se1 se2 other1 other2 : eid) (code : nat)
+         (p1x p1y o1x o1y p2x p2y o2x o2y : Q),
+  sqinv NQ s -> einv2 edges (sq_st s) -> mapped NQ (sq_st s) se1 -> mapped NQ (sq_st s) se2 ->
+  e_left (getE (sq_st s) se1) = true -> e_left (getE (sq_st s) se2) = true ->
+  e_other (getE (sq_st s) se1) = Some other1 -> e_other (getE (sq_st s) se2) = Some other2 ->
+  e_point (getE (sq_st s) se1) = fpt p1x p1y -> e_point (getE (sq_st s) other1) = fpt o1x o1y ->
+  e_point (getE (sq_st s) se2) = fpt p2x p2y -> e_point (getE (sq_st s) other2) = fpt o2x o2y ->
+  possible_intersection cfg s se1 se2 = Outcome.Ok (s', code) ->
+  forall k, mapped NQ (sq_st s') k -> ~ mapped NQ (sq_st s) k ->
+  exists x y, e_point (getE (sq_st s') k) = fpt x y /\ on_both p1x p1y o1x o1y p2x p2y o2x o2y x y.
+Proof. exact pi_new_events_on_both. Qed.
